@@ -510,7 +510,9 @@ Print Assumptions C03_kelim_sub_keeps_witnesses.
    statement: the same for every list of AApply / ACompose / AElim steps.  Missing: the published postcondition of
    acompose_prune does not exclude terminal cells outside the returned tree, which a SECOND composition needs (its
    loop runs over all terminal cells of the slab); the un-pruned machine is related to ptree only
-   (ArenaHistory.arena_step_compose_partial); congruence of compose_prune for cshape. *)
+   (ArenaHistory.arena_step_compose_partial).  The congruence of compose_prune for shape equivalence, and histories
+   with any number of pruned compositions modulo the executable stray-terminal check, follow in the second block below
+   (C03_compose_prune_respects_shapez, C03_arena_history_refines). *)
 From AT Require ArenaHistory ArenaHistoryMore ArenaHistoryRel ArenaHistoryEx ElimShape ElimWne CPruneWne.
 (* the invariant gives the hypotheses of the machines' theorems, and is decidable *)
 Theorem C03_arena_inv_compose_pre : forall a t, ArenaHistory.AInv a t ->
